@@ -29,6 +29,27 @@ CLAIMED["C25"] = dict(
     note="Trusted: Coq kernel + vm_compute; the model of Python dispatch (validated exhaustively on the grid each run); the subspace specification sub_spec and the inclusion table MATH_COVERS; directional orders outside {0,1,2,3,inf} not modelled.",
     design="3/C25")
 
+CLAIMED["C15"] = dict(
+    technique="Coq: hand-proved unbounded sum-preservation and no-merge theorems about Gallina models of the grouping functions over an abstract commutative monoid; structural correspondence on tagged generated forms checked by vm_compute Examples",
+    text="Props/C15_model.v models group_integrals_by_domain_and_type, rearrange_integrals_by_single_subdomains, accumulate_integrands_with_same_metadata, the final merge and build_integral_data. Proved for ALL lists of integrals, both append options and every key (domain, type, id/otherwise, coordinate-derivative class, metadata class): the sum of output integrands with that key equals the sum of the input integrands that apply there (C15_group_sums, C15_build_integral_data_sums); no-merge holds under injectivity of the canonicalisation key (C15_no_merge) and is refuted otherwise. Tie: tagged generated forms through the real group_form_integrals/compute_form_data are decoded to key->multiset of tags and compared with the model inside Coq on every run.",
+    note="Trusted: Coq kernel + vm_compute; decoder of real outputs; canonicalize_metadata treated as an oracle (its non-injectivity is the known finding metadata-str-rendering); subdomain_data/extra domain maps not modelled; coordinate-derivative hash key assumed collision free.",
+    design="3/C15")
+CLAIMED["C28"] = dict(
+    technique="Coq: hand-proved soundness of Gallina models of FormSum/Action/Adjoint/BaseForm-operator simplifications w.r.t. an abstract multilinear-map algebra, by induction on compositions; structural correspondence (object tree, weights, argument numbers) on generated real compositions by vm_compute Examples",
+    text="Props/C28_model.v models the simplifying constructors (FormSum flattening/zero elimination/weights, Action zero/identity/distribution incl. Python's re-initialisation when __new__ returns an instance, Adjoint involution/zero/sums, + - neg scalar*) and the reported argument numbers. Proved for all compositions (induction on the syntax) under the listed laws of contraction/transpose/linearity that every simplification preserves the assembled map outside the decidable class `reinit`, with refutations for the two known findings. Tie: typed random compositions of real Forms, Matrix, Cofunction, Coefficient, Coargument, ZeroBaseForm are built with the real classes and compared structurally with the model inside Coq on every run.",
+    note="Trusted: Coq kernel + vm_compute; the multilinear-map algebra is axiomatised by Section hypotheses (instantiated at Z for consistency), not a concrete tensor model; coefficients(), derivatives of base forms, map_integrands, complex/non-integer weights not modelled.",
+    design="3/C28")
+CLAIMED["C19"] = dict(
+    technique="Coq: fuelled stack-machine models of corealg/traversal.py, the map_expr_dag fold and mro first-match dispatch; induction for all trees / handler tables; class table regenerated by introspection; exact model-vs-code correspondence on random shared DAGs and all algorithm classes",
+    text="Proved for ALL trees (structural equality = UFL's ==): unique post-order has no duplicates, yields exactly the distinct sub-expressions, operands before users, root last, fuel 2*size+1 suffices; pre-order and cut-off variants; map_expr_dag with any sound vcache/rcache, both compress values and cut-off handlers equals the plain recursive map; for every mro list and handler table the dispatched handler is that of the nearest ancestor defining one. Tie: the 167-class table is regenerated from /repo each run (forest, typecodes, mro = parent chain checked by vm_compute); dispatch of all 24 real MultiFunction/Transformer subclasses x all classes and the six traversals / map_expr_dag / DAGTraverser / Transformer.visit on random real DAGs with sharing are compared exactly with the model.",
+    note="Trusted: Coq kernel + vm_compute; mapping of real Expr DAGs to the tree type; map_expr_dags with several expressions, DAGTraverser and Transformer.visit are validated against the model only (no hand model).",
+    design="3/C19")
+CLAIMED["C20"] = dict(
+    technique="Coq state-machine model of the handler-table caches with the cache policy extracted from the two __init__ bodies by ast; induction over operation histories; histories replayed on real code in fresh subprocesses and compared with the model",
+    text="State = live class registry, import-time snapshot, per-algorithm-class handler cache; operations Register/Instantiate/Apply. The cache policy (validates against the live registry? iterates the live registry?) is extracted from MultiFunction.__init__ and Transformer.__init__ with ast on every run and cross-checked by behavioural probes. Proved for all histories: with a validating live policy every Apply equals C19's dispatch (C20_history); for any policy histories without a Register after first use are correct (_partial); for the current non-validating policy the 3-step history Instantiate->Register->Apply fails (C20_history_refuted, known finding). Random histories with really registered @ufl_type classes run in fresh interpreters and must equal the model's outputs.",
+    note="Trusted: Coq kernel; ast policy extraction; instance-level staleness (an instance created before a registration) not modelled.",
+    design="3/C20")
+
 REASON_PENDING = "model not finished in this revision; not claimed rather than claimed with a non-proof check"
 
 
